@@ -25,7 +25,7 @@ RULE = (
     "the real curve_fit was reached through fit (spy fired) or an identity was evaluated on >= 20 "
     "times with a curve value > 0; distinct = descriptor hash."
 )
-MIN_NONTRIVIAL = {"quick": 150, "thorough": 3000}
+MIN_NONTRIVIAL = {"quick": 150, "thorough": 15000}
 SHARDS = {"quick": 4, "thorough": 16}
 GENERATOR = {"M": "10^U(-6, 9)", "tau": "10^U(-3, 5)", "window_end/tau": "U(0.6, 3)", "samples": "50..400"}
 ASSUMPTIONS = [
@@ -101,7 +101,7 @@ def curve(name):
 
 def generate(ck):
     rng = ck.rng
-    n = 230 if ck.tier == "quick" else 5200
+    n = 230 if ck.tier == "quick" else 25000
     descs = []
     for i in range(n):
         cv = ["ideal", "realgas", "fourier"][i % 3]
@@ -293,6 +293,24 @@ def run_case(ck, desc):
         for v, (lo, hi), nm in ((fo.M_, Mb, "M"), (fo.tau_, tb, "tau")):
             if not (lo <= v <= hi):
                 ck.violation("fitted-parameters-inside-bounds", {"param": nm, "value": float(v), "bounds": [lo, hi]}, desc)
+        # the same forecaster after its bounds have been replaced (a dataclass field): the next fit
+        # honours the bounds it has NOW, with and without a supplied tau
+        lo2, hi2 = 0.2 * M, 0.6 * M
+        tb2 = (1.5 * tau, 4.0 * tau)
+        fo.bounds = Bounds(M=(lo2, hi2), tau=tb2)
+        with warnings.catch_warnings():
+            warnings.simplefilter("ignore")
+            fo.fit(t, y)
+        _drain()
+        if not (lo2 <= fo.M_ <= hi2 and tb2[0] <= fo.tau_ <= tb2[1]):
+            ck.violation("fitted-parameters-inside-bounds", {"after": "bounds re-assigned", "M_": float(fo.M_), "tau_": float(fo.tau_), "bounds": [[lo2, hi2], list(tb2)]}, desc)
+        with warnings.catch_warnings():
+            warnings.simplefilter("ignore")
+            fo.fit(t, y, tau=tau)
+        _drain()
+        if not (lo2 <= fo.M_ <= hi2):
+            ck.violation("fitted-M-inside-bounds", {"after": "bounds re-assigned, tau supplied", "M_": float(fo.M_), "bounds": [lo2, hi2]}, desc)
+        ck.count("refits_after_bounds_reassignment")
         ck.count("guess_cases")
         return True, {"p0": p0, "fit": [float(fo.M_), float(fo.tau_)], "bounds": [Mb, tb]}
 
